@@ -277,6 +277,22 @@ def port_table(ctx, facts, P):
     return by_ref
 
 
+def _addrs_arg(c):
+    """The argument of a call that carries the address list (by its type)."""
+    tys = c.t.get("argtys") or []
+    idx = [i for i, ty in enumerate(tys) if ty.endswith("SocketAddrs")]
+    return c.args[idx[0]] if idx else c.args[1 if len(c.args) > 1 else 0]
+
+
+def _attempts_builder(facts):
+    """The function that turns the resolved addresses into the connecting state: the transport's `connecting` helper, or - when
+    that thin wrapper is gone - the constructor of TcpConnecting itself (the sort then sits there)."""
+    try:
+        return facts.fn("client::conn::transport::tcp::TcpTransport::connecting")
+    except KeyError:
+        return facts.fn("client::conn::transport::tcp::TcpConnecting::new")
+
+
 def C16_4_5(ctx, facts):
     import inline
     ps = _port_fns(facts)
@@ -290,7 +306,7 @@ def C16_4_5(ctx, facts):
     f = inline.inline(facts, cf, 3, lambda ck, raw: "::_::" not in ck and norm(ck) != P.nkey and norm(ck) not in at and not (raw.get("impl_trait") and raw["impl_trait"].split("::")[-1] not in ("From", "TryFrom", "Into", "TryInto", "FromStr", "Default")), expand=True)
     ctx.touched(f)
     spc = f.calls(P.nkey)
-    cg = f.calls("client::conn::transport::tcp::TcpTransport::connecting")
+    cg = f.calls(_attempts_builder(facts).nkey)
     ctx.floor("TcpTransport::connect|set_port", len(spc), 1, "call of the port-applying method")
     ctx.floor("TcpTransport::connect|connecting", len(cg), 1, "connecting call")
     is_resolve = lambda r: r.kind == "call" and (r.site.is_("client::conn::transport::tcp::TcpTransport::resolve") or "resolve" in norm(r.site.name))
@@ -299,10 +315,10 @@ def C16_4_5(ctx, facts):
             ok, w = f.must_pass(0, [c.bb], {x.bb for x in spc})
             ctx.check(ok, "TcpTransport::connect|port-before-attempts", "the port is applied to the resolved addresses before the attempts are built", "attempts can be built without the port having been applied", c.where(), f.path_desc(w))
         else:
-            r0 = f.roots(c.args[1], through_calls=False)
+            r0 = f.roots(_addrs_arg(c), through_calls=False)
             ok = bool(r0) and all(r.kind == "call" and r.site.is_(P.nkey) for r in r0)
             ctx.check(ok, "TcpTransport::connect|port-before-attempts", "the list the attempts are built from is the result of the port-applying method", "the attempts are built from %s" % sorted(map(repr, sig(r0)))[:4], c.where())
-        rr = f.roots(c.args[1], through_calls=True)
+        rr = f.roots(_addrs_arg(c), through_calls=True)
         ctx.check(any(is_resolve(r) for r in rr),
                   "TcpTransport::connect|addresses-from-resolver", "the addresses are the resolver's answer", "address roots %s" % sorted(map(repr, sig(rr)))[:5], c.where())
     for c in spc:
@@ -318,7 +334,7 @@ def C16_4_5(ctx, facts):
         rr = call.roots(c.args[0])
         ctx.check(any(r.kind == "arg" and r.desc.startswith("req.uri") for r in rr), "TcpTransport::call|port-from-uri", "host and port derive from the request URI", "roots %s" % sorted(map(repr, sig(rr))), c.where())
     # C16.5
-    g = facts.unit(facts.fn("client::conn::transport::tcp::TcpTransport::connecting"))
+    g = facts.unit(_attempts_builder(facts))
     ctx.touched(g)
     so = g.calls(SP)
     ctx.floor("connecting|sort_preferred", len(so), 1, "sort_preferred call")
